@@ -694,6 +694,10 @@ def run_opkinds(rep, bdir, tier, seed, replay=None, budget_s=None):
             for d in made:
                 os.makedirs(d, exist_ok=True)
             bad, out = run_one(binp, model, sc)
+            if not bad:
+                # races inside the library do not show on every run: the scenario again, 40 times in one process
+                bad, out = run_one(binp, model, sc, burst=40)
+                cov["replay_burst"] = 40
             for d in made:
                 shutil.rmtree(d, ignore_errors=True)
             cov["scenarios"] = 1
